@@ -210,6 +210,15 @@ def run(rep, ctx):
     with rep.guard("R06.10"):
         from . import c07 as _c07
         _c07.r07_3(rep, M, "R06.10")
+    rep.rule("R06.11", "spglib is given the analysed structure unmodified with the analyzer's tolerance, and its standardised lattice / positions / types are used without a change of convention (shared with C05)")
+    with rep.guard("R06.11"):
+        from . import shared as _shb
+        _shb.spglib_boundary(rep, ctx.model, "R06.11")
+    rep.floor("R06.11", 7)
+    rep.rule("R06.12", "every tabulated normalizer is an automorphism of its group and an isometry of the lattice (the normalised cell is the same crystal in the same space group; shared with C05/C14)")
+    from . import shared as _shn
+    _shn.normalizer_tables(rep, ctx.tables, "R06.12", perm=False)
+    rep.floor("R06.12", 2400)
     rep.floor("R06.6", 6000)
     rep.floor("R06.7", 8)
     rep.floor("R06.1", 230)
